@@ -82,7 +82,9 @@ def generate(seed, mode):
         classes.append({'bases': cb, 'decl': decl, 'xs': w.sample(range(nI), w.randint(0 if decl == 'only' else 1, min(2, nI))),
                         'pxs': w.sample(range(nI), w.randint(1, min(2, nI))),
                         # a class that is false in a boolean context (its metaclass defines __bool__ / __len__): legal, if unusual
-                        'falsy': w.random() < 0.15})
+                        'falsy': w.random() < 0.15,
+                        # a metaclass that itself implements interfaces (what the class provides through its type)
+                        'dmeta': w.random() < 0.25})
     restart = bool(mode.get('restart'))
     nops = w.randint(2, 10)
     ops = []
@@ -99,11 +101,32 @@ def generate(seed, mode):
             ops.append({'op': 'nprov', 'o': o.randrange(8), 'x': o.randrange(nI), 'k': k})
         elif r < 0.8 and not restart:
             ops.append({'op': 'cdecl', 'c': o.randrange(ncls), 'xs': o.sample(range(nI), o.randint(0, min(2, nI))),
-                        'how': o.choice(['impl', 'only', 'first', 'cprov', 'calso', 'cno', 'only_bad']), 'k': k})
+                        'how': o.choice(['impl', 'only', 'first', 'cprov', 'calso', 'cno', 'only_bad', 'metaonly', 'metaimpl']), 'k': k})
         elif r < 0.86 and not restart:
             ops.append({'op': 'gc', 'k': k})
+        elif not restart and h64(seed, 'later', len(ops)) % 4 == 0:
+            # durability across history: dump now, carry on with declarations, load later
+            ops.append({'op': 'dump', 'proto': o.randrange(6), 'k': k})
+        elif not restart and h64(seed, 'later', len(ops)) % 4 == 1:
+            ops.append({'op': 'loadlater', 'k': k})
         else:
             ops.append({'op': 'roundtrip', 'proto': o.randrange(6), 'gc': o.random() < 0.3, 'k': k})
+    dm = [c for c, cd in enumerate(classes) if cd.get('dmeta') and not cd.get('falsy')]
+    if not restart and dm and h64(seed, 'meta-pattern') % 3 == 0:
+        # fault placement: a class declares an interface directly, *then* its metaclass comes to implement the same interface,
+        # the declaration is dumped, the metaclass is narrowed again, and only then the dump is loaded
+        c = dm[h64(seed, 'meta-class') % len(dm)]
+        x = [h64(seed, 'meta-iface') % nI]
+        for how, xs_ in (('cprov', x), ('metaimpl', x), (None, None), ('metaonly', []), ('load', None)):
+            k = o.getrandbits(30)
+            if how is None:
+                ops.append({'op': 'dump', 'proto': o.randrange(6), 'k': k})
+            elif how == 'load':
+                ops.append({'op': 'loadlater', 'k': k})
+            else:
+                ops.append({'op': 'cdecl', 'c': c, 'xs': xs_, 'how': how, 'k': k})
+    if not restart:
+        ops.append({'op': 'loadlater', 'k': o.getrandbits(30)})
     ops.append({'op': 'roundtrip', 'proto': o.randrange(6), 'gc': False, 'k': o.getrandbits(30)})
     if restart:
         ops.append({'op': 'restart', 'proto': o.randrange(6), 'impl': o.choice(['c', 'py']), 'hashseed': o.choice(['0', '1', '12345']),
@@ -138,11 +161,23 @@ def build_world(W):
     FalsyMeta.__module__ = WMOD
     FalsyMeta.__qualname__ = 'FalsyMeta'
     mod.FalsyMeta = FalsyMeta
+    class DeclMeta(FalsyMeta):
+        def __bool__(cls):
+            return True
+
+        def __len__(cls):
+            return 1
+    DeclMeta.__module__ = WMOD
+    DeclMeta.__qualname__ = 'DeclMeta'
+    mod.DeclMeta = DeclMeta
+    if ifs:
+        from zope.interface import classImplements as _ci
+        _ci(DeclMeta, ifs[0])
     for c, cd in enumerate(W['classes']):
         name = 'PK%d' % c
         bl = [classes[b] for b in cd['bases']]
         cls = None
-        meta = FalsyMeta if cd.get('falsy') else type
+        meta = FalsyMeta if cd.get('falsy') else (DeclMeta if cd.get('dmeta') else type)
         for attempt in (bl, bl[:1], []):
             try:
                 cls = meta(name, tuple(attempt) or (object,), {'__module__': WMOD, '__qualname__': name})
@@ -361,6 +396,7 @@ def execute_pickle(program, ctx, mode):
     obs = []
     only = [cd['decl'] == 'only' for cd in W['classes']]
     hist_class_ops = [False]
+    stash = []
     last_class_op = [-1]
     last_ob_decl = {}
 
@@ -439,6 +475,10 @@ def execute_pickle(program, ctx, mode):
                 except TypeError:
                     ctx.fault('failing-only-declaration')
                 only[c] = True
+            elif how == 'metaonly':
+                classImplementsOnly(mod.DeclMeta, *xs[:1])          # changes what classes of that metaclass provide through their type
+            elif how == 'metaimpl':
+                classImplements(mod.DeclMeta, *xs)
             elif how == 'calso':
                 alsoProvides(classes[c], *xs)          # extends the class's own provides-declaration after it exists
             elif how == 'cno':
@@ -455,6 +495,45 @@ def execute_pickle(program, ctx, mode):
         elif name == 'gc':
             gc.collect()
             ctx.fault('gc')
+        elif name == 'dump':
+            proto = op['proto'] % 6
+            del stash[:]
+            for label, kind, v, ref in items():
+                if kind not in ('provides', 'classprovides') or type(v).__name__ not in ('Provides', 'ClassProvides'):
+                    continue        # (an undeclared instance shows its class's specification as __provides__)
+                args = v.__reduce__()[1]
+                # what the live declaration holds directly right now (after elision of what was redundant when declared):
+                # independent of __reduce__, and the least a later load has to provide
+                kept = set()
+                for a in v.__bases__[:-1]:
+                    if any(a is I for I in ifs):          # interfaces only: a class specification among the bases follows its class
+                        kept |= {x.__name__ for x in a.__iro__ if x.__name__.startswith('PI')}
+                stash.append((label, kind, pickle.dumps(v, proto), args, kept))
+            ctx.probe('dumped-for-a-later-load')
+            ctx.log(step, 'dump', proto, len(stash))
+        elif name == 'loadlater':
+            for label, kind, b, args, kept in stash:
+                try:
+                    v2 = pickle.loads(b)
+                except BaseException as e:    # noqa
+                    ctx.violation('C13', 'load', 'C13|later-load|loads-raises|%s|%s' % (kind, type(e).__name__), {'label': label})
+                    continue
+                # what such a declaration says is: the interfaces it was made with, plus what its class (for a class's own
+                # declaration: its metaclass) implements *now*
+                direct = args[1:] if kind == 'provides' else args[2:]
+                through = args[0] if kind == 'provides' else args[1]
+                want = set()
+                for a in direct:
+                    want |= set(names_of(a, ifs)) if hasattr(a, 'flattened') else {x.__name__ for x in a.__iro__ if x.__name__.startswith('PI')}
+                now = set(names_of(implementedBy(through), ifs))
+                want |= now                      # upper bound: everything that was declared (an elided declaration may come back)
+                least = kept | now               # lower bound: what the live declaration held at dump time
+                got = set(names_of(v2, ifs))
+                ctx.probe('loaded-later')
+                if not (least <= got <= want):
+                    ctx.violation('C13', 'same-interfaces', 'C13|later-load|provides-differ|%s|%s' % (kind, 'missing' if least - got else 'extra'),
+                                  {'label': label, 'got': sorted(got), 'at-least': sorted(least), 'at-most': sorted(want)})
+            ctx.log(step, 'loadlater', len(stash))
         elif name == 'roundtrip':
             proto = op['proto'] % 6
             for label, kind, v, ref in items():
@@ -495,6 +574,16 @@ def execute_pickle(program, ctx, mode):
                                 declared |= set(names_of(a, ifs)) if hasattr(a, 'flattened') else {x.__name__ for x in a.__iro__ if x.__name__.startswith('PI')}
                         if last_class_op[0] > last_ob_decl.get(o_, -1) and (set(got) - set(want_names)) <= declared:
                             ctx.probe('elided-declaration-reexpanded-after-class-narrowing')
+                            got = want_names
+                    if got != want_names and kind == 'classprovides' and set(got) > set(want_names):
+                        # the same for a class's own declaration: an interface that was redundant when declared (the metaclass
+                        # implemented it) was dropped from the live declaration; the pickle stores what was declared, so it
+                        # comes back once the metaclass no longer implements it
+                        declared = set()
+                        for a in v.__reduce__()[1][2:]:
+                            declared |= {x.__name__ for x in a.__iro__ if x.__name__.startswith('PI')} if not hasattr(a, 'flattened') else set(names_of(a, ifs))
+                        if (set(got) - set(want_names)) <= declared:
+                            ctx.probe('elided-class-declaration-reexpanded-after-metaclass-narrowing')
                             got = want_names
                     if got != want_names:
                         ctx.violation('C13', 'same-interfaces', 'C13|provides-differ|%s|%s' % (
